@@ -230,6 +230,12 @@ double CDF_Maxwell_Boltzmann(double x, double a)
 	}
 	else if(x < 0)
 		return 0.0;
+	else if(x < 1.0e-2 * a)
+	{
+		// The two terms of the closed form cancel for small arguments (the difference of two numbers of order x/a is of order (x/a)^3) and the result could even be negative. Use the Taylor series instead.
+		double z = x / a;
+		return sqrt(2.0 / M_PI) * z * z * z * (1.0 / 3.0 - z * z / 10.0 + z * z * z * z / 56.0);
+	}
 	else
 		return erf(x / sqrt(2.0) / a) - sqrt(2.0 / M_PI) * x / a * exp(-x * x / 2.0 / a / a);
 }
